@@ -167,11 +167,34 @@ VECEXT_VOCAB = '''
 pub open spec fn incr(s: Seq<usize>) -> bool { forall|a: int, b: int| 0 <= a < b < s.len() ==> s[a] < s[b] }
 pub open spec fn incr_int(s: Seq<int>) -> bool { forall|a: int, b: int| 0 <= a < b < s.len() ==> s[a] < s[b] }
 
+/// `kept` lists, in increasing order, exactly the positions of `s` not named in `idx`, and `r` is `s` at those positions.
+pub open spec fn removed_by<T>(s: Seq<T>, idx: Seq<usize>, r: Seq<T>, kept: Seq<int>) -> bool {
+    &&& incr_int(kept) && kept.len() == r.len()
+    &&& forall|k: int| 0 <= k < kept.len() ==> 0 <= #[trigger] kept[k] < s.len() && !idx.contains(kept[k] as usize) && r[k] == s[kept[k]]
+    &&& forall|i: int| 0 <= i < s.len() && !idx.contains(i as usize) ==> #[trigger] kept.contains(i)
+}
 /// `r` is `s` with exactly the positions in `idx` deleted (order and values preserved).
 pub open spec fn removed<T>(s: Seq<T>, idx: Seq<usize>, r: Seq<T>) -> bool {
-    exists|kept: Seq<int>| #![auto] incr_int(kept) && kept.len() == r.len()
-        && (forall|k: int| 0 <= k < kept.len() ==> 0 <= kept[k] < s.len() && !idx.contains(kept[k] as usize) && r[k] == s[kept[k]])
-        && (forall|i: int| 0 <= i < s.len() && !idx.contains(i as usize) ==> kept.contains(i))
+    exists|kept: Seq<int>| removed_by(s, idx, r, kept)
+}
+pub proof fn lemma_push_contains(s: Seq<usize>, v: usize)
+    ensures forall|x: usize| #[trigger] s.push(v).contains(x) <==> (s.contains(x) || x == v),
+{
+    assert forall|x: usize| #[trigger] s.push(v).contains(x) <==> (s.contains(x) || x == v) by {
+        if s.contains(x) { let k = choose|k: int| 0 <= k < s.len() && s[k] == x; assert(s.push(v)[k] == x); }
+        if x == v { assert(s.push(v)[s.len() as int] == x); }
+        if s.push(v).contains(x) {
+            let k = choose|k: int| 0 <= k < s.push(v).len() && s.push(v)[k] == x;
+            if k < s.len() { assert(s[k] == x); }
+        }
+    }
+}
+pub proof fn lemma_removed_nothing<T>(s: Seq<T>)
+    ensures removed(s, Seq::<usize>::empty(), s),
+{
+    let kept = Seq::new(s.len(), |k: int| k);
+    assert forall|i: int| 0 <= i < s.len() implies #[trigger] kept.contains(i) by { assert(kept[i] == i); }
+    assert(removed_by(s, Seq::<usize>::empty(), s, kept));
 }
 '''
 VECEXT_TRAIT_MEMBERS = '''
